@@ -124,6 +124,24 @@ def oracle(ctx, seeds=None):
             if abs(g - tay) > 3 * abs(z) ** (p + 1):
                 res.fail(name + ':propagator', "propagator(%r)=%r, Taylor_%d=%r" % (z, g, p, tay), dict(cls=name, kind='prop'))
                 break
+    # (3b) stability polynomial of the low-storage schemes: published Bogey-Bailly coefficients / degree-4 Taylor
+    BB = {'lsrk25bb': [1, 1, 0.5, 0.165250353664, 0.039372585984, 0.007149096448],
+          'lsrk26bb': [1, 1, 0.5, 0.165919771368, 0.040919732041, 0.007555704391, 0.000891421261],
+          'lsrk4': [1, 1, 0.5, 1.0 / 6, 1.0 / 24]}
+    for name, coef in BB.items():
+        cls = getattr(impl.integ, name, None)
+        if cls is None:
+            continue
+        for z in (1.5 + 0.5j, -0.7 + 2.0j, 2.5j, -2.0 + 0.1j):
+            ok, g = impl.guarded(lambda: complex(np.ravel(cls(FakeMesh(1), None).propagator(z))[0]))
+            res.case((name, 'stability-polynomial', z))
+            if not ok:
+                res.fail(name + ':raised', g, dict(cls=name, kind='poly')); break
+            pz = sum(c * z ** k for k, c in enumerate(coef))
+            tol = (2e-9 if name == 'lsrk26bb' else 1e-10) * (1 + abs(z)) ** len(coef)
+            if abs(g - pz) > tol:
+                res.fail(name + ':stability-polynomial', "propagator(%r)=%r differs from the published polynomial %r by %.3g" % (z, g, pz, abs(g - pz)), dict(cls=name, kind='poly', z=[z.real, z.imag]))
+                break
     # (4) SSP form of rk3ssp / rk2_heun on the recording RHS: equals Shu-Osher combination of Euler steps
     for name in ('rk3ssp', 'rk2_heun'):
         cls = getattr(impl.integ, name, None)
